@@ -105,13 +105,21 @@ def oracle(case, recs, out, stats):
                     for x in leaves:
                         if x not in after and not recalc_failed:
                             out.fail("recalc: former leaf dependent %s not recomputed after %s" % (x, " ".join(op)), hist)
+                    # recalculation = the lazy edit followed by evaluating the former leaf dependents: whatever that
+                    # computes (also elements never held before, when the new value sends a formula down another
+                    # path) and nothing else
                     extra = {x: v for x, v in after.items() if x not in expect}
-                    lazy = _lazy_values(case, k, list(extra))
+                    lazy = _lazy_values(case, k, [x for x in leaves if x in after])
                     for x, v in extra.items():
-                        if x not in gone:
-                            out.fail("recalc: unexpected new element %s after %s" % (x, " ".join(op)), hist)
-                        elif lazy.get(x) != v:
-                            out.fail("recalc: %s recomputed to %s but lazy recomputation gives %s" % (x, v, lazy.get(x)), hist)
+                        if lazy.get(x) != v:
+                            out.fail("recalc: %s is %s after %s but the lazy edit followed by evaluating the former leaf "
+                                     "dependents gives %s" % (x, v, " ".join(op), lazy.get(x)), hist)
+                    if not recalc_failed:
+                        for x, v in lazy.items():
+                            if after.get(x) != v:
+                                out.fail("recalc: %s is %s after %s but the lazy edit followed by evaluating the former "
+                                         "leaf dependents gives %s" % (x, after.get(x), " ".join(op), v), hist)
+                                break
                     base = {x: v for x, v in after.items() if x in expect}
                     if base != expect:
                         out.fail("recalc: surviving values differ after %s: %s" % (" ".join(op), _diff(expect, base)), hist)
